@@ -74,6 +74,18 @@ Theorem C18_placement_refuted_optional_value :
                g_tasks r = [(Some "n", [("list", AStr "-R")])]).
 Proof. exact refuted_optional_value. Qed.
 
+(** F-C18d: options that Program acts upon BETWEEN the two passes (--version,
+    --print-completion-script; likewise --debug, --write-pyc, --collection,
+    --search-root) do not mean the same inside a task's argument list. *)
+Theorem C18_placement_refuted_early_options :
+  program_outline core_ctx [task_a] ["--version"; "a"] = Ok OVersionExit /\
+  (exists r, program_outline core_ctx [task_a] ["a"; "--version"] = Ok (ORunTasks r) /\
+             core_value (pg_core r) "version" = ABool true /\
+             List.length (pg_tasks r) = 1) /\
+  program_outline core_ctx [task_a] ["--print-completion-script=zsh"; "a"] = Ok OCompletionExit /\
+  (exists r, program_outline core_ctx [task_a] ["a"; "--print-completion-script=zsh"] = Ok (ORunTasks r)).
+Proof. exact refuted_early_options. Qed.
+
 (** Placement, the proved part (one machine step, not the end-to-end
     equivalence): in a task context with no missing positional and nothing
     pending ([quiet]), an exact boolean core flag that the task does not shadow
